@@ -1,0 +1,39 @@
+//go:build verif
+// +build verif
+
+package service
+
+// Export for the verification harness (/verif, property C11).  Built only with
+// the "verif" tag; adds no behaviour to the package.
+
+import (
+	"net/http"
+
+	"github.com/cnotch/ipchub/provider/auth"
+	"github.com/cnotch/ipchub/service/rtsp"
+	"github.com/cnotch/ipchub/service/wsp"
+	"github.com/cnotch/xlog"
+	"github.com/kelindar/tcp"
+)
+
+// VerifNewHTTP builds the production HTTP handler (initApis + initHTTPStreams:
+// /api/ with its interceptors, /streams/ with token and permission
+// interceptors, WebSocket upgrade into ws-rtsp / WSP / ws-flv) of a fresh
+// Service without listeners or scheduled tasks, and returns it together with
+// the service's token manager.
+func VerifNewHTTP() (http.Handler, *auth.TokenManager) {
+	s := &Service{
+		logger: xlog.L(),
+		http:   new(http.Server),
+		rtsp:   new(tcp.Server),
+		wsp:    new(tcp.Server),
+		tokens: new(auth.TokenManager),
+	}
+	mux := http.NewServeMux()
+	s.initApis(mux)
+	s.initHTTPStreams(mux)
+	s.http.Handler = mux
+	s.rtsp.OnAccept = rtsp.CreateAcceptHandler()
+	s.wsp.OnAccept = wsp.CreateAcceptHandler()
+	return mux, s.tokens
+}
